@@ -9,6 +9,7 @@ import (
 	"encoding/json"
 	"errors"
 	"fmt"
+	"io"
 	"net"
 	"reflect"
 	"sort"
@@ -41,6 +42,7 @@ type Exch struct {
 	API       int    `json:"api,omitempty"`        // 0 ExchangeWithConn, 1 ExchangeWithConnContext(ctx deadline), 2 WriteMsg+ReadMsg, 3 Exchange (the library dials, exchanges, closes), 4 ExchangeContext; 3 and 4 need the socket seam of the instrumented build and fall back to 0 and 1 without it
 	Dial      string `json:"dial,omitempty"`       // API 3/4: "" the connection is there after DialMs | refused | blackhole (no answer to the connection attempt: the dial must give up by the exchange's deadline)
 	DialMs    int    `json:"dial_ms,omitempty"`    // API 3/4: simulated time the connection attempt takes
+	QCase     bool   `json:"qcase,omitempty"`      // the query name is written in mixed case and the handler answers with the name in lower case (a handler that canonicalises what it echoes)
 	CliUDP    int    `json:"cli_udp,omitempty"`    // udp: Client.UDPSize / Conn.UDPSize (0 = the library's default of 512 octets)
 	OptSize   int    `json:"opt_size,omitempty"`   // udp: the query carries an OPT record advertising this receive size (0 = no OPT)
 }
@@ -49,10 +51,11 @@ type Client struct {
 	Net      string `json:"net"` // udp | tcp
 	After    int    `json:"after,omitempty"`
 	Exch     []Exch `json:"exch"`
-	Spoof    int    `json:"spoof,omitempty"`    // forged foreign-ID datagrams injected towards this client
-	Pipeline bool   `json:"pipeline,omitempty"` // tcp: all queries are written before any reply is read; the handlers answer asynchronously
-	Trickle  bool   `json:"trickle,omitempty"`  // tcp: the first query arrives in three pieces, 1.5 and 1 server read timeouts apart, the others right behind it; the server (read timeout 2 s in such a run) may give up on the connection, it must not serve anything but the requests that were sent
-	Home     int    `json:"home,omitempty"`     // udp: which of the server host's addresses this client talks to
+	Spoof    int    `json:"spoof,omitempty"`     // forged foreign-ID datagrams injected towards this client
+	Pipeline bool   `json:"pipeline,omitempty"`  // tcp: all queries are written before any reply is read; the handlers answer asynchronously
+	SlowRead bool   `json:"slow_read,omitempty"` // with Pipeline: the client takes the first ten octets of the reply stream, pauses for three seconds, then reads on; the link's window is 64 octets in such a run, so the server's writes wait for it
+	Trickle  bool   `json:"trickle,omitempty"`   // tcp: the first query arrives in three pieces, 1.5 and 1 server read timeouts apart, the others right behind it; the server (read timeout 2 s in such a run) may give up on the connection, it must not serve anything but the requests that were sent
+	Home     int    `json:"home,omitempty"`      // udp: which of the server host's addresses this client talks to
 }
 
 type Scenario struct {
@@ -185,6 +188,7 @@ func Gen(seed uint64, tier string) any {
 				e.Size = sc.UDPSize
 			}
 			e.CliUDP = 65535
+			e.QCase = core.Chance(r, 15)
 			if c.Net == "udp" && core.Chance(r, 35) {
 				// receive buffers as applications configure them: the default, small EDNS sizes, below the 512-octet minimum
 				e.CliUDP = core.Pick(r, 0, 0, 100, 511, 512, 1232, 4096)
@@ -220,6 +224,13 @@ func Gen(seed uint64, tier string) any {
 			for j := range c.Exch {
 				c.Exch[j].H.Kind = core.Pick(r, "async", "async", "normal")
 				c.Exch[j].TimeoutMs = 60000
+			}
+			if core.Chance(r, 35) {
+				c.SlowRead = true
+				sc.Window = 64
+				for j := range c.Exch {
+					c.Exch[j].H.ReplySize = 300 + r.IntN(900)
+				}
 			}
 		}
 		sc.Clients = append(sc.Clients, c)
@@ -465,6 +476,9 @@ func (x *run) ServeDNS(w dns.ResponseWriter, r *dns.Msg) {
 		m.SetReply(r)
 		m.Id = id
 		m.Compress = ex.plan.Compress
+		if ex.plan.QCase && len(m.Question) > 0 {
+			m.Question[0].Name = strings.ToLower(m.Question[0].Name)
+		}
 		m.Answer = append(m.Answer, &dns.TXT{Hdr: dns.RR_Header{Name: r.Question[0].Name, Rrtype: dns.TypeTXT, Class: dns.ClassINET}, Txt: []string{tok, "inv" + strconv.Itoa(inv)}})
 		sized(m, size)
 		return m
@@ -778,6 +792,9 @@ func (c *clientTask) RunEvent(time.Time) {
 		ex := x.ex[tok(c.ci, ei)]
 		m := new(dns.Msg)
 		m.SetQuestion(ex.token+".test.", dns.TypeTXT)
+		if e.QCase {
+			m.Question[0].Name = strings.ToUpper(ex.token) + ".TeSt."
+		}
 		m.Id = ex.id
 		m.Compress = e.Compress
 		if (c.ci+ei)%2 == 0 {
@@ -1019,6 +1036,22 @@ func (c *clientTask) trickle(co *dns.Conn, sconn *simnet.StreamConn) {
 	co.Close()
 }
 
+// stashConn hands out octets that were taken off the stream earlier, then the stream.
+type stashConn struct {
+	net.Conn
+	buf []byte
+}
+
+//go:norace
+func (s *stashConn) Read(p []byte) (int, error) {
+	if len(s.buf) > 0 {
+		n := copy(p, s.buf)
+		s.buf = s.buf[n:]
+		return n, nil
+	}
+	return s.Conn.Read(p)
+}
+
 const trickleTimeout = 2 * time.Second
 
 // pipeline writes every query of the client, then reads the replies in
@@ -1053,6 +1086,15 @@ func (c *clientTask) pipeline(co *dns.Conn, sconn *simnet.StreamConn) {
 	for ei, e := range plan.Exch {
 		if ei < sent && e.H.Kind != "silent" {
 			expect++
+		}
+	}
+	if plan.SlowRead && expect > 0 {
+		// a reader that stops in the middle of a reply: the server's write has to wait for it
+		head := make([]byte, 10)
+		if _, err := io.ReadFull(sconn, head); err == nil {
+			k.Sleep("cli.slowread", 3*time.Second)
+			co.Conn = &stashConn{Conn: sconn, buf: head}
+			k.Bump("fault.reader_pauses_mid_reply")
 		}
 	}
 	seen := map[string]bool{}
@@ -1406,7 +1448,7 @@ func runExchange(sc *Scenario, res *core.Result, verbose bool) {
 	n := simnet.New(k)
 	n.PostYield = sc.PostYield
 	d, j := time.Duration(sc.DelayMs)*time.Millisecond, time.Duration(sc.JitterMs)*time.Millisecond
-	n.Stream = simnet.StreamLink{MinDelay: d, Jitter: j, SegMode: sc.SegMode, ShortRead: sc.ShortRead}
+	n.Stream = simnet.StreamLink{MinDelay: d, Jitter: j, SegMode: sc.SegMode, ShortRead: sc.ShortRead, Window: sc.Window}
 	n.Dgram = simnet.DgramLink{MinDelay: d, Jitter: j, Drop: sc.Drop, Dup: sc.Dup}
 	x := &run{sc: sc, k: k, n: n, res: res, ex: map[string]*exState{}, cliFin: make([]bool, len(sc.Clients)), connReply: map[string][]*wrec{}, rawConn: map[int]bool{}, dialed: map[string]*dialRec{}}
 	if common.DialSeam() {
